@@ -7,6 +7,14 @@ namespace ratio
 
     expr enum_type::new_instance(context &) { return get_core().new_enum(*this, get_all_instances()); }
 
+    expr enum_type::new_existential()
+    {
+        const std::vector<item *> c_instances = get_all_instances();
+        if (c_instances.size() == 1)
+            return c_instances.front();
+        return get_core().new_enum(*this, c_instances);
+    }
+
     std::vector<item *> enum_type::get_all_instances() const noexcept
     {
         std::vector<item *> c_instances;
